@@ -13,6 +13,7 @@ CONSTANTS
   Askers = {"me", "u1"}
   Queries = {"qhit", "qmiss"}
   Hits <- MC_Hits
+  HitsX <- MC_HitsX
   MaxSearches = 0
   FixReannounce = TRUE
   FixChildParent = TRUE
